@@ -45,12 +45,16 @@ reg("C01",
     level_note="Trusted: serde_json / serde_smile as readers of the produced bytes; the dynamic (Shape, Val) serde implementation (bound to derive/std impls by the static-twin conformance check); the reference encoders in vcommon::cmodel.")
 
 reg("C05",
-    packages=["shapes"], bin="shapes", level="model_checking", engine="E1 shapes",
+    packages=["shapes", "cgorder"], level="model_checking", engine="E1 shapes + E2 genharness",
+    parts=[
+        {"packages": ["shapes"], "bin": "shapes"},
+        {"packages": ["cgorder"], "cmd": ["python3", "engines/e2/e2.py"]},
+    ],
     technique="explicit-state enumeration of (shape, value, object node, position, injected value) states, each executed on the real client/server deserializers (JSON+Smile, all sources)",
     design_ref="DESIGN.md §3 C05",
     explanation="every shape with an object node up to the depth bound; an unknown field holding each of 12 JSON values is inserted first/between/last into each object node (one and two injections); the document is read by every client and server path, dynamic structs and derive-based twins",
     level_text="Bounded exhaustive exploration of nesting contexts x injection points on the implementation: every container path below deserialize_struct (seq, map value, option, newtype/alias, nested struct) is reached at every depth up to the bound, for JSON and Smile and every input source.",
-    level_note="Trusted: the Conjure serializers to render the injected documents (guarded: a case is only judged if its un-injected document round-trips); derive-based twins bind the dynamic struct to serde derive. Generated Conjure objects are covered by the E2 part when built.")
+    level_note="Trusted: the Conjure serializers to render the injected documents (guarded: a case is only judged if its un-injected document round-trips); derive-based twins bind the dynamic struct to serde derive. Part 1 injects an undeclared member into every object node of the valid documents of every generated type (objects, unions, aliases; every configuration incl. exhaustive) and reads them with the compiled generated code, JSON and Smile; the client value is compared with the one read from the document without the member.")
 
 reg("C13",
     packages=["shapes"], bin="shapes", level="model_checking", engine="E1 shapes",
